@@ -1,0 +1,19 @@
+//go:build verif
+
+package crypto
+
+// Contracts checked by /verif/govc (contract-based deductive verification).
+// Comment-only: with the `verif` tag off this file is not even parsed.
+
+// C39: a multi-signature verifies iff it decodes, has exactly one signature per member key,
+// and every member key accepts the signature at ITS OWN position (order matters).
+//@ func (PublicKeyMultiSignature).VerifyBytes
+//@   props C39
+//@   modifies all
+//@   ensures [sound] result ==> decMSok(old(bytes(multiSignature))) && msN(decMS(old(bytes(multiSignature)))) == len(pms.PublicKeys) && (forall i int :: 0 <= i && i < len(pms.PublicKeys) ==> msHas(decMS(old(bytes(multiSignature))), i) && sigVerify(pms.PublicKeys[i], bytes(msg), msSig(decMS(old(bytes(multiSignature))), i)))
+//@   ensures [complete] decMSok(old(bytes(multiSignature))) && msN(decMS(old(bytes(multiSignature)))) == len(pms.PublicKeys) && (forall i int :: 0 <= i && i < len(pms.PublicKeys) ==> msHas(decMS(old(bytes(multiSignature))), i) && sigVerify(pms.PublicKeys[i], bytes(msg), msSig(decMS(old(bytes(multiSignature))), i))) ==> result
+//@   loop 0 invariant [range] 0 <= i && i <= numOfSigs && numOfSigs == len(pms.PublicKeys)
+//@   loop 0 invariant [decoded] multiSig == decMS(old(bytes(multiSignature)))
+//@   loop 0 invariant [count] numOfSigs == msN(multiSig)
+//@   loop 0 invariant [ok] decMSok(old(bytes(multiSignature)))
+//@   loop 0 invariant forall j int :: 0 <= j && j < i ==> msHas(multiSig, j) && sigVerify(pms.PublicKeys[j], bytes(msg), msSig(multiSig, j))
